@@ -273,4 +273,13 @@ PROPS = {
         ["H-aead: AES-GCM opens only what was sealed under the same key and nonce (premise of C20_altered_file_is_error / C20_wrong_key_is_error)",
          "H-gob / H-pem: encoding/gob and x509+pem round-trip the wallet struct (premise of C20_roundtrip)"],
         ("Model/WalletFile.vo",)),
+    "C04": make_pure_check("C04", "tamper",
+        "real wallets sign real vertices (with/without data, with/without receiver countersignature); every mutation class of the property is applied: bit flips in every vertex and "
+        "transaction field, truncation/extension of byte fields and signatures, moving bytes across each adjacent boundary of the unframed transaction message, swapping fields between two "
+        "valid vertices, addresses/signatures of another wallet, receiver-signature stripping/replacement, well-checksummed addresses of keys of length 0/1/31/33/64; each mutant goes through "
+        "Vertex.verify and through AddLeaf on a real ledger (snapshot before/after); non-trivial = every mutant (distinct by construction)",
+        "Vertex.verify outcome vs the model's decision list verify_dec over independently established facts (own sha256/ed25519/base58 re-implementation); GetMessage / initData byte-exact vs trx_msg / vtx_msg (coqc vm_compute)",
+        ["H-sha: sha256 collision-free; H-sig: ed25519 signatures verify only under the signing key on signed digests (premises of C04_vertex_fields_pinned / C04_trx_fields_pinned_partial)",
+         "H-b58: base58 + 4-byte double-sha checksum decoding as implemented by mr-tron/base58 (re-implemented independently in the harness)"],
+        ("Model/Msg.vo",)),
 }
